@@ -1,7 +1,7 @@
 /-
 C10 line-protocol driver (see harness/internal/c10/c10.go for the field list):
 
-  req <srvT> <cih> <strict> <hT> <omit> <remote> <tls> <host> <hdrs> <tbl> <fails> <hops> <mode>
+  req <srvT> <cih> <strict> <hT> <omit> <remote> <tls> <host> <hdrs> <tbl> <fails> <hops> <mode> <lb>
 
 `tbl` carries net/netip's answers for this case (every '%'-free substring of the remote
 address / a header value that `ParseAddr` accepts, its `String()`, and `Prefix.Contains`
@@ -85,11 +85,11 @@ def showVal : Option (Option (List Bytes)) → String
 def showFwd (f : Fwd) : String :=
   "xff=" ++ showVal f.xff ++ " xfp=" ++ showVal f.xfp ++ " xfh=" ++ showVal f.xfh
 
-def showOut (o : Out) (k : Consumers) (attempts : Option (List Fwd)) : String :=
+def showOut (o : Out) (k : Consumers) (ck : String) (attempts : Option (List Fwd)) : String :=
   "ip=" ++ Hex.encode o.clientIP ++ " tp=" ++ (if o.trusted then "1" else "0") ++
   " ph=" ++ Hex.encode k.placeholder ++ " lg=" ++ Hex.encode k.logField ++
   " cm=" ++ (if k.clientMatch then "1" else "0") ++ " rm=" ++ (if k.remoteMatch then "1" else "0") ++
-  " pp=" ++ (match k.proxyProto with | some a => Hex.encode a ++ "/0" | none => "invalid") ++
+  " pp=" ++ (match k.proxyProto with | some a => Hex.encode a ++ "/0" | none => "invalid") ++ " ck=" ++ ck ++
   (match attempts with
    | none => " err"
    | some l => " " ++ " | ".intercalate (l.map showFwd))
@@ -140,7 +140,7 @@ def handleCF : List String → String
 
 def handle : List String → String
   | "cf" :: rest => handleCF rest
-  | ["req", srvT, cih, strict, hT, omitF, remote, tls, host, hdrs, tbl, failsF, hopsF, modeF] =>
+  | ["req", srvT, cih, strict, hT, omitF, remote, tls, host, hdrs, tbl, failsF, hopsF, modeF, lbF] =>
     -- `dyn:` = the same ranges answered by a request-scoped IPRangeSource (not among the probe's matcher ranges)
     let dyn := srvT.startsWith "dyn:"
     let srvT := if dyn then (srvT.drop 4).toString else srvT
@@ -159,8 +159,8 @@ def handle : List String → String
       let ns := match srv with | some n => n | none => 0
       -- mode: 0 GET over HTTP/1.1 | 1 websocket over HTTP/2; ServeHTTP's rewriting of the prepared request
       -- (method, Upgrade/Connection, :protocol, Sec-WebSocket-Key) does not touch a modelled field
-      match parseTable ns nh tbl, parseSmall failsF, parseOps hopsF, (if modeF == "0" || modeF == "1" then some () else none) with
-      | some table, some fails, some ops, some () =>
+      match parseTable ns nh tbl, parseSmall failsF, parseOps hopsF, (if modeF == "0" || modeF == "1" then parseSmall lbF else none) with
+      | some table, some fails, some ops, some lb =>
         let cfg : Cfg PIdx :=
           { srvTrusted := srv.map (idxList 0), clientIPHeaders := ci, strict := st,
             handlerTrusted := idxList 1 nh, omitXFF := o1, omitXFP := o2, omitXFH := o3 }
@@ -170,6 +170,11 @@ def handle : List String → String
           (fixedZones.zipIdx.map (fun zi => ⟨⟨2, zi.2⟩, zi.1⟩))
         showOut (serve (tableNet table) cfg ⟨remote, tls, host, early⟩ wire)
           (serveConsumers (tableNet table) cfg mranges ⟨remote, tls, host, early⟩ wire)
+          -- lb: 0 default policy | 1 client_ip_hash (oracle only) | 2 cookie: Secure attribute of the sticky cookie
+          (if lb = 2 then
+             (match cookieSecure (tableNet table) cfg ⟨remote, tls, host, early⟩ wire with
+              | some true => "1" | some false => "0" | none => "-")
+           else "-")
           (serveAttempts (tableNet table) cfg ⟨remote, tls, host, early⟩ wire ops fails)
       | _, _, _, _ => "bad-op"
     | _, _, _, _, _, _, _, _, _ => "bad-op"
